@@ -32,6 +32,8 @@ def log(*a):
 # tree hash / flavours
 
 _tree_hash = None
+import threading
+_gen_lock = threading.Lock()
 
 
 def tree_hash():
@@ -90,10 +92,12 @@ def build_one(spec, flavour):
             mname, mspec = spec['machine']
             hp = os.path.join(BUILD, 'gen', mname + '.hpp')
             text = structgen.header(mname, mspec)
-            if not os.path.exists(hp) or open(hp).read() != text:
-                with open(hp + '.tmp%d' % os.getpid(), 'w') as fh:
-                    fh.write(text)
-                os.rename(hp + '.tmp%d' % os.getpid(), hp)
+            with _gen_lock:
+                if not os.path.exists(hp) or open(hp).read() != text:
+                    tmpn = hp + '.tmp%d' % os.getpid()
+                    with open(tmpn, 'w') as fh:
+                        fh.write(text)
+                    os.rename(tmpn, hp)
         inc = ['-I' + os.path.join(REPO, 'include')] if flavour == 'single' else ['-I' + os.path.join(REPO, 'development'), '-DHV_DEV_FLAVOUR']
         flags = list(BASE_FLAGS)
         if spec.get('std'):
